@@ -31,6 +31,11 @@ def gen_cases(ctx):
     for d in list(range(1, 11)) * (2 if ctx.quick() else 8):
         kind = rng.choice(["unit", "random"])
         cases.append({"d": d, "rows": tri_rows(rng, d, rng.randint(1, 3), 20, kind), "kind": kind})
+    # one degree in several ambient dimensions in a row, larger first and smaller first (all cases of a configuration run in one
+    # process: scratch space of the compiled routines must not leak from one call to the next)
+    for d in (2, 5, 6):
+        for dim in (3, 1, 2, 3, 1):
+            cases.append({"d": d, "rows": tri_rows(rng, d, dim, 20, "random"), "kind": "random"})
     return cases
 
 
